@@ -411,7 +411,9 @@ func (fr *Frame) loopModifies(li *loopInfo) *loopMods {
 						texts["call:"+n] = true
 						texts["callname:"+n] = true
 					}
-					if sf := cc.StaticCallee(); !cc.IsInvoke() && (sf == nil || (sf.Blocks != nil && x.w.contractFor(sf) == nil)) {
+					if _, isBuiltin := cc.Value.(*ssa.Builtin); isBuiltin {
+						// no callee code runs
+					} else if sf := cc.StaticCallee(); !cc.IsInvoke() && (sf == nil || (sf.Blocks != nil && x.w.contractFor(sf) == nil)) {
 						conservative = true
 					}
 				}
@@ -485,7 +487,9 @@ func (fr *Frame) loopModifies(li *loopInfo) *loopMods {
 				}
 				// last(f) cells: a call inside the loop overwrites them (a callee
 				// that is executed in place may call anything)
-				if sf := t.Call.StaticCallee(); !t.Call.IsInvoke() && (sf == nil || (sf.Blocks != nil && x.w.contractFor(sf) == nil)) {
+				if _, isBuiltin := t.Call.Value.(*ssa.Builtin); isBuiltin {
+					// len, cap, append, copy, ...: no callee code runs
+				} else if sf := t.Call.StaticCallee(); !t.Call.IsInvoke() && (sf == nil || (sf.Blocks != nil && x.w.contractFor(sf) == nil)) {
 					for _, cs := range x.lastCalls {
 						for _, c := range cs {
 							m.cells[c] = true
@@ -725,6 +729,13 @@ func (fr *Frame) enterLoop(st *State, li *loopInfo) {
 		cells = append(cells, c)
 	}
 	sort.Slice(cells, func(i, j int) bool { return cells[i].id < cells[j].id })
+	if x.w.verbose {
+		var ns []string
+		for _, c := range cells {
+			ns = append(ns, c.name)
+		}
+		x.vc.diag("%s: %s havocs cells %v heaps %v all=%v", fr.fn.String(), label, ns, mods.heaps, mods.all)
+	}
 	for _, c := range cells {
 		old := st.cells[c]
 		nv := x.freshVal(c.name, c.ty)
